@@ -445,9 +445,11 @@ class sptenmat:
             raise ValueError(
                 f"Can only compares against other sptenmat but received: {type(other)}"
             )
+        # Compare the canonical (sorted) stored forms: entries may be stored in any order
+        this, that = self.copy(), other.copy()
         return (
-            np.array_equal(self.vals, other.vals)
-            and np.array_equal(self.subs, other.subs)
+            np.array_equal(this.vals, that.vals)
+            and np.array_equal(this.subs, that.subs)
             and self.tshape == other.tshape
             and np.array_equal(self.cdims, other.cdims)
             and np.array_equal(self.rdims, other.rdims)
